@@ -155,7 +155,10 @@ func TestC06_Bodies(t *testing.T) {
 				scanDyn(tree)
 				// (the for_each collection may be the variable itself or a container inside it
 				// that carries the mark as a whole, e.g. secret.tags with element-level placement)
-				wholeMarkedIterable := hasMarkedContainer(ctx1.Variables[secret]) || hasMarkedContainer(ctx2.Variables[secret])
+				// (... or a collection computed in the for_each expression from a value marked as a
+				// whole, e.g. {for k, v in xs : k => v if secret}: the result of such an expression
+				// carries the mark as a whole)
+				wholeMarkedIterable := placement == gen.MarkTop || hasMarkedContainer(ctx1.Variables[secret]) || hasMarkedContainer(ctx2.Variables[secret])
 				switch {
 				case dynOverSecret && wholeMarkedIterable && c.Known("dynblock-marked-for-each-block-count-unmarked"):
 					c.Class("excluded_known_dynamic_block_count")
